@@ -16,6 +16,7 @@
       F7 is a known finding here as well)
   H7  level i is signed with its own leaf and its own parameter set: the per-level key generation receives element i of the counter
       decomposition and element i of the decoded parameter list (C03's provenance rules P1)
+      (C03's P1) and the counter decomposition rules (C03's P2: 'by that level's current leaf')
 Not decided: byte equality with an independent signer for concrete inputs; the chain and checksum arithmetic (C12).
 """
 from . import c12, c13, core, expr, flow, hl, hlref, ia, paramtable as pt
